@@ -129,6 +129,9 @@ def r4_parse_back(ctx):
     try:
         got = [read_back(ctx, t) for t in ("        ", " " * 16, "")]
         ok = all(g == Const(None) for g in got)
-        ctx.check(ok, "nas_sscanf returns None for a blank field", nfn, None if ok else [repr(g) for g in got])
+        if not ok and not all(is_num(g) or isinstance(g, (Lit, Const)) or (isinstance(g, tuple) and g[0] == "raises") for g in got):
+            ctx.error("nas_sscanf on a blank field: the result is not concrete", nfn, [repr(g)[:200] for g in got])
+        else:
+            ctx.check(ok, "nas_sscanf returns None for a blank field", nfn, None if ok else [repr(g) for g in got])
     except Unsupported as e:
         ctx.error("nas_sscanf on a blank field: not modelled", nfn, str(e))
